@@ -11,6 +11,7 @@ mod c11;
 mod c14;
 mod c14m;
 mod c15;
+mod c16;
 mod tlslab;
 mod redir;
 mod common;
@@ -95,6 +96,7 @@ const CHECKS: &[(&str, CheckFn)] = &[
     ("C11", c11::c11),
     ("C14", c14m::c14),
     ("C15", c15::c15),
+    ("C16", c16::c16),
     ("C19", wirechecks::c19),
 ];
 
@@ -112,4 +114,5 @@ const REPLAYERS: &[(&str, ReplayFn)] = &[
     ("c11", c11::replay),
     ("c14", c14m::replay),
     ("c15", c15::replay),
+    ("c16", c16::replay),
 ];
